@@ -12,6 +12,7 @@ import (
 	"pgregory.net/rapid"
 
 	"verifh/ev"
+	"verifh/gen"
 	"verifh/ref"
 )
 
@@ -287,8 +288,11 @@ func drawC10(t *rapid.T) c10Case {
 	c.U = u64("u")
 	c.Period = u64("period")
 	c.Skew = u64("skew")
-	if rapid.Bool().Draw(t, "smallSkew") {
+	switch rapid.IntRange(0, 3).Draw(t, "skewMode") {
+	case 0, 1:
 		c.Skew = uint64(rapid.IntRange(0, 12).Draw(t, "skewS"))
+	case 2:
+		c.Skew = gen.RefusedSkew(t)
 	}
 	c.Digits = rapid.IntRange(0, 255).Draw(t, "digits")
 	if rapid.Bool().Draw(t, "digitsNear") {
